@@ -231,7 +231,12 @@ def run_triple(spec, ctx, bm):
             k += 1
             continue
         homes = [np.concatenate([rng.uniform(-1, 1, 3), gen.rotvec(rng, ["zero", "generic2"])]) for _ in range(n)]
-        if desc["kind"] != "urdf" or arm._link_homes_global is None or len(arm._link_homes_global) < n:
+        try:
+            arm.FKLink(np.zeros(n), n - 1)
+            _has_links = True
+        except Exception:
+            _has_links = False
+        if desc["kind"] != "urdf" or not _has_links:
             arm.setOrigins(link_homes_global=[tm(h.copy()) for h in homes])
         G = np.array([gen.spd6(rng, True) for _ in range(n)])
         Ml = [se3.rp(np.eye(3), rng.uniform(-0.3, 0.3, 3)) for _ in range(n + 1)]
